@@ -4,14 +4,18 @@
 //   commands executed through the command() efun are logged as       ecmd <user> =<text>
 // After the log line the script registered for that text (if any) runs:
 //   kick,<u> destruct(u)   drop,<u> remove_interactive(u)   ecmd,<u>,<text> u->force(text) (command() efun)
-//   gc get_char()          it input_to()          itn input_to(.., I_NOECHO)
+//   gc get_char()          it input_to()          itn input_to(.., I_NOECHO)      err error(): uncaught
+//   exec  exec(new body, body of this user): replace_interactive
 #include "/include/vcommon.h"
 
 string oid = "?";
 int in_force = 0;   // > 0 while a command() call of this object is running
+int relaying = 0;   // > 0 while this body executes an op on behalf of a stale body of the same user (see do_op)
 
 void create () { seteuid (getuid ()); }
 void set_oid (string s) { oid = s; "/c12/reg"->reg (s, this_object ()); }
+// a fresh body for the connection of user s (exec): same name, commands enabled, registered instead of the old body
+void adopt (string s) { set_oid (s); enable_commands (); add_action ("do_cmd", "", 1); }
 string query_oid () { return oid; }
 
 // text -> token: [a-z0-9] literal, everything else %xx
@@ -34,6 +38,7 @@ void run (string key) {
   foreach (string op in explode (s, ";")) {
     do_op (op);
     if (!this_object ()) return;   // destructed itself: the script stops
+    if (!objectp ("/c12/reg"->get (oid))) return;   // the user (its current body) was destructed: the script stops
   }
 }
 
@@ -45,6 +50,7 @@ void logon () {
 
 // buffered line about to be parsed: this is the turn-limited path
 mixed process_input (string s) {
+  in_force = 0;   // an error thrown inside a command() call skipped the decrement in force()
   VL ("cmd " + oid + " " + enc (s));
   return 0;
 }
@@ -54,6 +60,7 @@ int do_cmd (string arg) {
   string v = query_verb ();
   string text;
   if (!stringp (v)) v = "";
+  if (relaying > 0 && v == "zzop") { do_op (arg); return 1; }   // not a command of the case: no log line, no script
   text = v + (stringp (arg) && arg != "" ? " " + arg : "");
   if (in_force > 0) VL ("ecmd " + oid + " " + enc (text));
   run (enc (text));
@@ -61,16 +68,20 @@ int do_cmd (string arg) {
 }
 
 void got_char (string s) {
+  in_force = 0;
   VL ("cmd " + oid + " " + enc (s));
   run (enc (s));
 }
 
 void got_line (string s) {
+  in_force = 0;
   VL ("cmd " + oid + " " + enc (s));
   run (enc (s));
 }
 
 void force (string text) { in_force++; command (text); in_force--; }
+// input_to()/get_char() act on command_giver; command() makes this body the command giver
+void relay (string op) { relaying++; command ("zzop " + op); relaying--; }
 
 void net_dead () { }
 
@@ -78,6 +89,10 @@ void do_op (string s) {
   string *w = explode (s, ",");
   object o;
   int r;
+  // a script may go on running in a body the connection has left (exec in a nested command() call): the driver's
+  // command_giver is then that stale body; let the body that holds the connection now execute input_to / get_char
+  o = "/c12/reg"->get (oid);
+  if (o && o != this_object () && (w[0] == "gc" || w[0] == "it" || w[0] == "itn")) { o->relay (s); return; }
   switch (w[0]) {
   case "kick":
     o = "/c12/reg"->get (w[1]);
@@ -106,6 +121,20 @@ void do_op (string s) {
   case "it":
     r = input_to ("got_line");
     VL ("it " + (this_player () ? this_player ()->query_oid () : "?") + " " + r);
+    break;
+  case "exec":  // the connection of this user moves to a fresh body (exec efun); the old body stays behind, not interactive
+    o = "/c12/reg"->get (oid);
+    r = (o && interactive (o)) ? 1 : 0;
+    VL ("exec " + oid + " " + r);
+    if (r) {
+      object nb = new ("/c12/user.c");
+      nb->adopt (oid);
+      exec (nb, o);
+    }
+    break;
+  case "err":   // uncaught LPC error: longjmp to the top of backend(), the running cycle is aborted
+    VL ("throw " + oid);
+    error ("c12-throw\n");
     break;
   default:
     VL ("badop " + s);
